@@ -367,6 +367,30 @@ def run(ctx):
         ctx.violation("bounds-assert:zero-width-leaf", "expression_bounds' own assertion fires on a zero-width integer field",
                       dict(kind="module", module=wit, exception=repr(ex)), found_input=True)
 
+    # --- replay of the refutation witness of tight_choice_refuted (finding F7) ---
+    wit7 = '[$default byte_order: "LittleEndian"]\nstruct Foo:\n  0 [+1]  UInt  a\n  let c = a >= 0 ? 10 : 20\n'
+    try:
+        ir7, errs7 = compile_for_bounds(wit7)
+        e7 = [e for (e, where, attr) in irx.top_level_expressions(ir7) if where.endswith("/c") and e.which_expression == "function"
+              and e.function.function.name == "CHOICE"]
+        if e7:
+            hi7 = int(e7[0].type.integer.maximum_value)
+            attained = False
+            for aval in range(256):
+                pe = PyEval(ir7, ctx.rng)
+                from compiler.util import ir_util as _iu
+                for sub in all_subexpressions(e7[0]):
+                    if sub.which_expression == "field_reference":
+                        pe.env[_iu.hashable_form_of_field_reference(sub.field_reference)] = aval
+                if pe.ev(e7[0]) == hi7:
+                    attained = True
+            if not attained:
+                ctx.violation("bounds-not-tight:choice-tautology",
+                              "inferred upper bound %d of 'a >= 0 ? 10 : 20' (a : UInt:8) is attained by none of the 256 values of a" % hi7,
+                              dict(kind="module", module=wit7, inferred_maximum=hi7), found_input=True)
+    except Exception as ex:
+        ctx.note("F7 witness replay failed: %r" % (ex,))
+
     # --- (iii) direct soundness sampling of the implementation's annotations (support, not proof) ---
     n_env = 0
     for a, b, obj in ec[: (2000 if ctx.thorough() else 400)]:
